@@ -401,15 +401,19 @@ def typed_dict_signature(obj: tp.Callable) -> inspect.Signature:
     # The hints of the class itself: asking for an exhaustive answer would come back
     #   here when there are none (an empty TypedDict, an unresolvable annotation).
     hints = get_type_hints(obj, exhaustive=False)
-    total = getattr(obj, "__total__", True)
-    default = inspect.Parameter.empty if total else ...
+    # A key is required or not by its own declaration (`NotRequired`, `Required`),
+    #   not only by the totality of the class. (A TypedDict has no defaults: an
+    #   attribute of the class named like a key is a method of `dict`.)
+    required = getattr(obj, "__required_keys__", None)
+    if required is None:  # pragma: no cover
+        required = hints if getattr(obj, "__total__", True) else ()
     return inspect.Signature(
         parameters=tuple(
             inspect.Parameter(
                 name=x,
                 kind=inspect.Parameter.KEYWORD_ONLY,
                 annotation=y,
-                default=getattr(obj, x, default),
+                default=inspect.Parameter.empty if x in required else ...,
             )
             for x, y in hints.items()
         )
